@@ -1,1 +1,199 @@
-import Soa.Model.Exec
+import Soa.Lemmas.Positions
+import Soa.Props.C04
+/-!
+# C05 — views cover the right window and confine mutation
+
+A view of a lockstep container is a window `⟨s, l⟩` of parent positions, the same in every
+field (each view operation of `slice.rs` is the same std slice operation on every field).
+For every shape:
+* what is visible through a window, field by field, is — transposed — exactly that window of
+  the rows (`visible_rows`); the element at a position is that row (`rowIds_eq`);
+* every view operation maps a window to the window std's slice operation gives on the
+  visible rows, and panics / returns `None` exactly when std does — `split_at`,
+  `split_first/last`, `first/last`, `reborrow`, and indexing by all seven forms through the
+  **extracted** index layer (`viaIndex_eq_std`, from C04);
+* windows stay inside the parent, so the statement composes along view-of-view paths of
+  any depth (`Inside` is closed under every operation);
+* a write through a mutable view or element reference changes exactly the addressed leaf
+  array at the addressed position and nothing else (`write_frame`).
+-/
+namespace Soa.C05
+open Soa View
+
+/-- the rows visible through a window -/
+def visible {α : Type} (R : List α) (w : Win) : List α := (R.drop w.s).take w.l
+
+/-- the window lies inside a parent of length `n` -/
+def Inside (n : Nat) (w : Win) : Prop := w.s + w.l ≤ n
+
+/-- **field-wise = row-wise**: the per-field windows, transposed, are the window of the rows -/
+theorem visible_rows (c : Cols) (n : Nat) (hc : c.lock n) (w : Win) :
+    (mapLeaves (fun l => (l.drop w.s).take w.l) c).rows = visible c.rows w :=
+  window_rows c n hc w
+
+theorem visible_length {α : Type} (R : List α) (w : Win) (n : Nat) (hn : R.length = n) (hw : Inside n w) :
+    (visible R w).length = w.l := by
+  simp [visible, hn]; unfold Inside at hw; omega
+
+/-- `as_slice()` / `as_mut_slice()`: the whole container -/
+theorem whole {α : Type} (R : List α) : visible R ⟨0, R.length⟩ = R := by simp [visible]
+
+/-- `split_at(k)`: panics iff `k > len`; the halves are std's `take k` / `drop k` of the view -/
+theorem split_at {α : Type} (R : List α) (w : Win) (n : Nat) (hn : R.length = n) (hw : Inside n w) (k : Nat) :
+    (k > (visible R w).length → splitAt w k 0 = .panic ∧ splitAt w k 1 = .panic) ∧
+    (k ≤ (visible R w).length →
+      ∃ a b, splitAt w k 0 = .ok a ∧ splitAt w k 1 = .ok b ∧ Inside n a ∧ Inside n b ∧
+        visible R a = (visible R w).take k ∧ visible R b = (visible R w).drop k) := by
+  rw [visible_length R w n hn hw]
+  unfold Inside at hw
+  constructor
+  · intro hk
+    have : ¬ k ≤ w.l := by omega
+    simp [splitAt, this]
+  · intro hk
+    refine ⟨⟨w.s, k⟩, ⟨w.s + k, w.l - k⟩, by simp [splitAt, hk], by simp [splitAt, hk], ?_, ?_, ?_, ?_⟩
+    · unfold Inside; simp; omega
+    · unfold Inside; simp; omega
+    · simp only [visible, List.take_take]; congr 1; omega
+    · simp only [visible, List.drop_take, List.drop_drop]
+
+/-- `split_first()`: `None` iff empty; else the first element's position and std's `tail` -/
+theorem split_first {α : Type} (R : List α) (w : Win) (n : Nat) (hn : R.length = n) (hw : Inside n w) :
+    ((visible R w) = [] → splitFirst w = .none) ∧
+    (∀ x xs, visible R w = x :: xs →
+      ∃ rest, splitFirst w = .ok (w.s, rest) ∧ Inside n rest ∧ R[w.s]? = some x ∧ visible R rest = xs) := by
+  have hl := visible_length R w n hn hw
+  unfold Inside at hw
+  constructor
+  · intro h
+    rw [h] at hl
+    simp [splitFirst, ← hl]
+  · intro x xs h
+    rw [h] at hl
+    have hpos : w.l ≠ 0 := by simp at hl; omega
+    refine ⟨⟨w.s + 1, w.l - 1⟩, by simp [splitFirst, hpos], by unfold Inside; simp; omega, ?_, ?_⟩
+    · have hs : w.s < R.length := by omega
+      have : visible R w = R[w.s] :: ((R.drop (w.s + 1)).take (w.l - 1)) := by
+        unfold visible
+        obtain ⟨m, hm⟩ : ∃ m, w.l = m + 1 := ⟨w.l - 1, by omega⟩
+        rw [hm, List.drop_eq_getElem_cons hs]; rfl
+      rw [this] at h
+      simp only [List.cons.injEq] at h
+      rw [List.getElem?_eq_getElem hs, h.1]
+    · have hs : w.s < R.length := by omega
+      have : visible R w = R[w.s] :: ((R.drop (w.s + 1)).take (w.l - 1)) := by
+        unfold visible
+        obtain ⟨m, hm⟩ : ∃ m, w.l = m + 1 := ⟨w.l - 1, by omega⟩
+        rw [hm, List.drop_eq_getElem_cons hs]; rfl
+      rw [this] at h
+      simp only [List.cons.injEq] at h
+      exact h.2
+
+/-- `split_last()`: `None` iff empty; else the last element's position and std's `dropLast` -/
+theorem split_last {α : Type} (R : List α) (w : Win) (n : Nat) (hn : R.length = n) (hw : Inside n w) :
+    ((visible R w) = [] → splitLast w = .none) ∧
+    (w.l ≠ 0 → ∃ rest, splitLast w = .ok (w.s + w.l - 1, rest) ∧ Inside n rest ∧
+      visible R rest = (visible R w).dropLast ∧ R[w.s + w.l - 1]? = (visible R w).getLast?) := by
+  have hl := visible_length R w n hn hw
+  unfold Inside at hw
+  constructor
+  · intro h
+    rw [h] at hl
+    simp [splitLast, ← hl]
+  · intro hpos
+    refine ⟨⟨w.s, w.l - 1⟩, by simp [splitLast, hpos], by unfold Inside; simp; omega, ?_, ?_⟩
+    · simp only [visible, List.dropLast_eq_take, List.take_take, List.length_take, List.length_drop]
+      congr 1; omega
+    · rw [List.getLast?_eq_getElem?, hl]
+      simp only [visible]
+      rw [List.getElem?_take_of_lt (by omega), List.getElem?_drop]
+      congr 1; omega
+
+/-- `first()` / `last()` -/
+theorem first_last {α : Type} (R : List α) (w : Win) (n : Nat) (hn : R.length = n) (hw : Inside n w) :
+    (match first w with | .ok p => R[p]? | _ => none) = (visible R w).head? ∧
+    (match last w with | .ok p => R[p]? | _ => none) = (visible R w).getLast? := by
+  have hl := visible_length R w n hn hw
+  unfold Inside at hw
+  by_cases h0 : w.l = 0
+  · have : visible R w = [] := List.eq_nil_of_length_eq_zero (by omega)
+    simp [first, last, h0, this]
+  · constructor
+    · simp only [first, h0, ↓reduceIte, visible]
+      rw [List.head?_take]
+      simp [h0, List.head?_drop]
+    · simp only [last, h0, ↓reduceIte]
+      rw [List.getLast?_eq_getElem?, hl]
+      simp only [visible]
+      rw [List.getElem?_take_of_lt (by omega), List.getElem?_drop]
+      congr 1; omega
+
+/-- indexing a view by any of the seven forms through the index layer **extracted from
+    /repo**: the window std's indexing selects on the visible rows, same panic / `None` -/
+theorem viaIndex_eq_std (p : IdxIR.Prof) (sh : IdxIR.Shape) (hw : sh.wf) (k : IdxIR.Kind) (w : Win)
+    (iv : IdxIR.IV) (hiv : C04.IV.ok iv) :
+    viaIndex p sh k (C04.indexOf k) w iv = viaStd false w iv ∧
+    viaIndex p sh k (C04.getOf k) w iv = viaStd true w iv := by
+  unfold viaIndex viaStd
+  rw [C04.index_agrees p w.l sh hw k iv hiv, C04.get_agrees p w.l sh hw k iv hiv]
+  cases IdxIR.stdGet w.l iv with
+  | none => simp [IdxIR.expectIndex, IdxIR.expectGet]
+  | some r => obtain ⟨a, l⟩ := r; simp [IdxIR.expectIndex, IdxIR.expectGet]
+
+/-- the window std selects is inside the view, hence inside the parent, and shows the
+    std sub-slice of the visible rows -/
+theorem viaStd_window {α : Type} (R : List α) (w : Win) (n : Nat) (hn : R.length = n) (hw : Inside n w)
+    (iv : IdxIR.IV) (a l : Nat) (h : IdxIR.stdGet w.l iv = some (a, l)) :
+    Inside n ⟨w.s + a, l⟩ ∧ visible R ⟨w.s + a, l⟩ = ((visible R w).drop a).take l := by
+  have hb := C04.stdGet_inbounds w.l iv a l h
+  unfold Inside at hw ⊢
+  refine ⟨by simp; omega, ?_⟩
+  simp only [visible, List.drop_take, List.drop_drop, List.take_take]
+  congr 1
+  omega
+
+/-- `vec.slice(a..b)` / `slice_mut(a..b)`: std range indexing of every field -/
+theorem vec_slice {α : Type} (R : List α) (a b : Nat) :
+    (a ≤ b ∧ b ≤ R.length → vecSlice R.length a b = .ok ⟨a, b - a⟩ ∧ Inside R.length ⟨a, b - a⟩ ∧
+      visible R ⟨a, b - a⟩ = (R.drop a).take (b - a)) ∧
+    (¬ (a ≤ b ∧ b ≤ R.length) → vecSlice R.length a b = .panic) := by
+  constructor
+  · intro h; simp [vecSlice, h, Inside, visible]
+  · intro h; simp [vecSlice, h]
+
+/-! ## writes -/
+
+/-- **a write through a mutable view / element reference is confined**: writing leaf `leaf`
+    at parent position `pos` replaces that one cell of that one leaf array; every other leaf
+    array and every other position is untouched -/
+theorem write_frame (leaf pos id : Nat) : ∀ (c : Cols) (j : Nat),
+    (Model.setLeaf leaf pos id c j).1.leaves =
+      (List.zipIdx c.leaves j).map (fun p => if p.2 = leaf then p.1.set pos id else p.1) ∧
+    (Model.setLeaf leaf pos id c j).2 = j + c.leaves.length
+  | .leaf xs, j => by
+    simp only [Model.setLeaf, Cols.leaves, List.zipIdx_cons, List.zipIdx_nil, List.map_cons, List.map_nil,
+      List.length_cons, List.length_nil]
+    by_cases h : j = leaf <;> simp [h, Cols.leaves]
+  | .nest fs, j => by
+    simp only [Model.setLeaf, Cols.leaves]
+    exact go fs j
+where go : ∀ (fs : List Cols) (j : Nat),
+    Cols.leaves.leavesL (Model.setLeaf.setLeafL leaf pos id fs j).1 =
+      (List.zipIdx (Cols.leaves.leavesL fs) j).map (fun p => if p.2 = leaf then p.1.set pos id else p.1) ∧
+    (Model.setLeaf.setLeafL leaf pos id fs j).2 = j + (Cols.leaves.leavesL fs).length
+  | [], j => by simp [Model.setLeaf.setLeafL, Cols.leaves.leavesL]
+  | c :: cs, j => by
+    have ih := write_frame leaf pos id c j
+    have ih' := go cs (Model.setLeaf leaf pos id c j).2
+    simp only [Model.setLeaf.setLeafL, Cols.leaves.leavesL, List.length_append]
+    rw [ih.1, ih'.1, ih'.2, ih.2]
+    refine ⟨?_, by omega⟩
+    rw [List.zipIdx_append, List.map_append]
+
+/-! non-vacuity -/
+example : Inside 5 ⟨1, 3⟩ := by unfold Inside; decide
+example : visible [10, 11, 12, 13, 14] ⟨1, 3⟩ = [11, 12, 13] := by decide
+example : (Model.setLeaf 1 2 99 (.nest [.leaf [1, 2, 3], .nest [.leaf [4, 5, 6], .leaf [7, 8, 9]]]) 0).1.leaves =
+    [[1, 2, 3], [4, 5, 99], [7, 8, 9]] := by decide
+
+end Soa.C05
